@@ -4,7 +4,7 @@
     (Gen/BspFormats_gen.v); the check discharges their boolean premises for today's source by vm_compute. *)
 From Coq Require Import List String NArith ZArith Bool.
 From SV Require Import Bin.LE Bin.Struct Bin.StructProofs Bin.RLE Bin.RLEProofs Bin.FindInsert Bin.FindInsertProofs
-  Fmt.BspFormatsSpec Fmt.BspFormatsProofs.
+  Fmt.BspFormatsSpec Fmt.BspFormatsProofs Fmt.BspVisRow Fmt.BspVisRowProofs Fmt.BspTexStrings Fmt.BspTexStringsProofs.
 Import ListNotations.
 
 (** * struct: unpack inverts pack for every format and every fitting record *)
@@ -68,6 +68,37 @@ Proof. exact rle_roundtrip. Qed.
 Theorem c11_rle_roundtrip_in_lump : forall pre d rest,
   rle_decode (Some (List.length d)) (List.length pre) (pre ++ rle_encode d ++ flat_map rle_encode rest) = Some d.
 Proof. exact rle_roundtrip_in_lump. Qed.
+
+(** The row size: an expression of the translated language that passes the decision procedure [rowsize_ok]
+    (one more byte per eight clusters, right on 0..7) is ceil(n/8) for EVERY cluster count. *)
+Theorem c11_vis_row_size_all_counts : forall e, rowsize_ok e = true ->
+  forall n : nat, reval e (Z.of_nat n) = Z.of_nat (ceil8 n).
+Proof. exact rowsize_is_ceil8. Qed.
+Theorem c11_vis_row_size_shr3_plus1_refuted :
+  rowsize_ok (RAdd (RShr RVar 3) (RConst 1)) = false /\
+  reval (RAdd (RShr RVar 3) (RConst 1)) 8 = 2%Z /\ ceil8Z 8 = 1%Z /\
+  firstn 3 (rowsize_witnesses (RAdd (RShr RVar 3) (RConst 1))) = [0; 8; 16]%Z.
+Proof. exact rowsize_shr3_plus1_refuted. Qed.
+(** The visibility lump: rows of the length the writer insists on, written back to back after any header, are all
+    read back through their stored offsets by a reader that decodes [er(count)] bytes per row. *)
+Theorem c11_visibility_roundtrip : forall er ew (n : nat) hdr rows,
+  rowsize_ok er = true -> rowsize_ok ew = true ->
+  Forall (fun r => Z.of_nat (List.length r) = reval ew (Z.of_nat n)) rows ->
+  map (fun off => rle_decode (Some (Z.to_nat (reval er (Z.of_nat n)))) off (hdr ++ flat_map rle_encode rows))
+      (vis_offsets (List.length hdr) rows) = map Some rows.
+Proof. exact visibility_roundtrip. Qed.
+
+(** * Texture name string table: every name is read back at its stored offset, whatever storage was shared *)
+Theorem c11_texdata_strings_roundtrip : forall ss sa maxlen win names data offs,
+  texcfg_ok (ss, sa, maxlen, win) = true ->
+  Forall (fun s => nul_free s = true /\ (List.length s <= maxlen)%nat) names ->
+  tex_write ss sa names = (data, offs) ->
+  map (tex_read win data) offs = map Some names.
+Proof. exact texdata_strings_roundtrip. Qed.
+Theorem c11_texdata_search_without_terminator_refuted :
+  tex_write [] [0%N] [[65; 66]; [65]]%N = ([65; 66; 0]%N, [0; 0]%nat) /\
+  tex_read 128 [65; 66; 0]%N 0 = Some [65; 66]%N.
+Proof. exact texdata_search_without_terminator_refuted. Qed.
 
 (** * Index builders *)
 Theorem c11_find_or_insert_sound : forall l ks s' is, fi_run (fi_init l) ks = (s', is) ->
